@@ -1,4 +1,5 @@
 import GoagModel.Embed
+import GoagModel.Serve
 /-
   C13, embedding half: the constant compiled into the generated package equals the input.
   Property theorems only; helper lemmas are the two step lemmas below (kept here because
@@ -77,3 +78,105 @@ theorem old_crlf_drops_cr : goEval (encodeOld "a\r\nb".toList) = some "a\nb".toL
 theorem old_bom_breaks : goEval (encodeOld (bom :: "a\nb".toList)) = none := by decide
 
 end Goag.Embed
+
+/-! ## served half: `GET <base>/<spec name>` -/
+namespace Goag.Serve
+open Goag.Spec Goag.Router
+
+def isSpecFinal : Ev → Bool
+  | .final _ _ "SPECFILE" => true
+  | _ => false
+
+/-- **C13 (served)**: with the spec-file handler installed, a request for
+    `<base path>/<spec name>` is answered by that handler alone — whatever the method, the
+    routes and the middlewares installed (no other event occurs) -/
+theorem spec_served (leaf : LeafTable) (api : ApiM) (cfg : Cfg) (req : Req)
+    (hi : cfg.spec = true) (hp : req.path = api.base ++ "/" ++ api.specName) :
+    serve leaf api cfg req = [Ev.final 200 ("application/" ++ specExt api.specName) "SPECFILE"] := by
+  unfold serve
+  simp [hi, hp]
+
+theorem opHandler_no_spec (leaf : LeafTable) (api : ApiM) (cfg : Cfg) (o : OpM) (r : RCtx) :
+    ∀ e ∈ opHandler leaf api cfg o r, isSpecFinal e = false := by
+  intro e he
+  unfold opHandler at he
+  simp only [List.mem_append, List.mem_cons, List.not_mem_nil, or_false] at he
+  rcases he with ((rfl | he) | he) | rfl
+  · rfl
+  · split at he <;> simp at he; subst he; rfl
+  · split at he <;> simp at he; subst he; rfl
+  · decide
+
+theorem authOr_no_spec (refs : List AuthRef) (cfg : Cfg) (req : Req) :
+    ∀ e ∈ (authOr refs cfg req).1, isSpecFinal e = false := by
+  induction refs with
+  | nil => simp [authOr]
+  | cons r rs ih =>
+    intro e he
+    unfold authOr at he
+    split at he
+    · exact ih e he
+    · split at he
+      · exact ih e he
+      · split at he
+        · simp at he; subst he; rfl
+        · simp only [List.mem_cons] at he
+          rcases he with rfl | he
+          · rfl
+          · exact ih e he
+
+theorem secured_no_spec (leaf : LeafTable) (api : ApiM) (cfg : Cfg) (o : OpM) (r : RCtx) :
+    ∀ e ∈ secured leaf api cfg o r, isSpecFinal e = false := by
+  intro e he
+  unfold secured at he
+  split at he
+  · exact opHandler_no_spec _ _ _ _ _ e he
+  · split at he
+    · rename_i evs s t heq
+      simp only [List.mem_append] at he
+      rcases he with he | he
+      · have := authOr_no_spec o.auth cfg r.req e; rw [heq] at this; exact this he
+      · exact opHandler_no_spec _ _ _ _ _ e he
+    · rename_i evs heq
+      simp only [List.mem_append, List.mem_cons, List.not_mem_nil, or_false] at he
+      rcases he with he | rfl
+      · have := authOr_no_spec o.auth cfg r.req e; rw [heq] at this; exact this he
+      · decide
+
+/-- **C13 (served, only when installed)**: the spec body is served for no other request and
+    never without the handler installed -/
+theorem spec_only_when_installed (leaf : LeafTable) (api : ApiM) (cfg : Cfg) (req : Req)
+    (h : (cfg.spec && req.path == api.base ++ "/" ++ api.specName) = false) :
+    ∀ e ∈ serve leaf api cfg req, isSpecFinal e = false := by
+  intro e he
+  unfold serve at he
+  simp only [h, Bool.false_eq_true, if_false] at he
+  split at he
+  · unfold notFound at he
+    split at he <;> simp at he
+    · rcases he with rfl | rfl <;> decide
+    · subst he; decide
+  · simp at he
+    rcases he with rfl | rfl | rfl
+    · rfl
+    · rfl
+    · decide
+  · rename_i o _
+    unfold wrapLoop at he
+    rw [List.foldl_reverse] at he
+    -- every event of the wrapped handler is an enter/leave or an event of `secured`
+    have key : ∀ (is : List Nat) (r : RCtx), ∀ e ∈ (is.map logMw).foldr (fun m acc => m acc) (secured leaf api cfg o) r,
+        isSpecFinal e = false := by
+      intro is
+      induction is with
+      | nil => intro r e he; exact secured_no_spec _ _ _ _ _ e he
+      | cons i tl ih =>
+        intro r e he
+        simp only [List.map_cons, List.foldr_cons, logMw, List.mem_append, List.mem_cons, List.not_mem_nil, or_false] at he
+        rcases he with (rfl | he) | rfl
+        · rfl
+        · exact ih r e he
+        · rfl
+    exact key _ _ e he
+
+end Goag.Serve
